@@ -4,7 +4,7 @@
  "file": "pp.c", "function": "ctxnext",
  "properties": {"C12": "contract", "C19": "safety"},
  "mode": "harness",
- "unwind": 5,
+ "unwind": 5, "unwind_failure": "violation",
  "variants": {"pop": ["-DV_SUBST=0"], "subst": ["-DV_SUBST=1"]},
  "kind": "bounded",
  "bound": "pop: a context stack of 0..3 frames, each with 0..2 pending tokens and belonging to an object-like macro or to none; subst: one frame of a function-like macro with parameters (a, b) whose next tokens are one of: a parameter, `#` parameter, another identifier, a number; arguments of 0..2 tokens",
